@@ -599,6 +599,29 @@ def r_select_list_order(ctx: Ctx, rule: str) -> None:
                 itb = resolve_name(p, it.id, j) if isinstance(it, ast.Name) else it
                 if isinstance(itb, ast.Call) and isinstance(itb.func, ast.Name) and itb.func.id == "sorted" and itb.args and denotes(p, itb.args[0], sel, ("columns",), j):
                     ok = True
+                    key = kw(itb, "key")
+                    if isinstance(key, ast.Name) and isinstance(resolve_name(p, key.id, j), ast.AST):
+                        key = resolve_name(p, key.id, j)
+                    ktxt = src(key).replace(" ", "") if key is not None else ""
+                    injective = False
+                    if isinstance(key, ast.Lambda) and len(key.args.args) == 1:
+                        a_ = key.args.args[0].arg
+                        injective = src(key.body).replace(" ", "") in (f"{a_}.qualified_name", f"self.get_identifier({a_})")
+                    elif ktxt in ("self.get_identifier", "operator.attrgetter('qualified_name')", "attrgetter('qualified_name')"):
+                        injective = True
+                    if key is not None and not injective and not reported:
+                        reported = True
+                        seen += 1
+                        run.fail(
+                            rule,
+                            "select-list:key",
+                            f"the SELECT list is sorted by `{src(key)[:60]}`: the ColumnTag protocol promises only that qualified_name is as unique as the tag, so two "
+                            "different tags may compare equal under this key; the stable sort then keeps them in the iteration order of the particular set object, "
+                            "and the operands of a UNION list the same columns in different positions",
+                            fi=f,
+                            node=itb,
+                        )
+                        continue
                 what = src(it)[:80]
             if ok:
                 run.ok(rule, inst, {"order": what})
@@ -826,3 +849,78 @@ def r_select_hooks_get_selects(ctx: Ctx, rule: str) -> None:
                         run.fail(rule, inst, f"`{src(c)[:80]}` receives `{src(b)[:50] if isinstance(b, ast.AST) else src(a)}` instead of self.conform(<operand>): an operand of another engine reaches code that assumes a Select", fi=f, node=c)
     if n == 0:
         raise AnalysisError("no call of the *_to_select hooks found")
+
+
+def r_select_never_empty(ctx: Ctx, rule: str) -> None:
+    """`SELECT FROM t` is not SQL: every SELECT list built from a variable-length list gets the placeholder."""
+    run, m = ctx.run, ctx.m
+    run.rule(
+        rule,
+        "no SELECT without columns: every `select(*cols)` the SQL engine builds from a list of variable length is "
+        "preceded, on every path and with no re-binding in between, by `self.handle_empty_columns(cols)` (select_items "
+        "documents this as its responsibility), and handle_empty_columns appends a labelled literal whenever the list "
+        "is empty: a zero-column relation (join identity, projection to nothing) otherwise renders `SELECT FROM ...`",
+        expected_min=4,
+    )
+    from ..paths import _binds
+
+    eng = ctx.cls(SQL_ENGINE, "Engine")
+    n_sites = 0
+    for f in eng.methods.values():
+        sites = [
+            c
+            for c in iter_calls(f.node)
+            if (dotted(c.func) or "").split(".")[-1] == "select" and "sql" in (dotted(c.func) or "") and any(isinstance(a, ast.Starred) for a in c.args)
+        ]
+        if not sites:
+            continue
+        for pi, p in enumerate(ctx.paths(f)):
+            for j, c in path_calls(p):
+                if not any(c is s_ for s_ in sites):
+                    continue
+                if any(not isinstance(a, ast.Starred) for a in c.args):
+                    continue  # a fixed column is always there
+                n_sites += 1
+                problem = None
+                for a in c.args:
+                    v = a.value  # type: ignore[union-attr]
+                    if not isinstance(v, ast.Name):
+                        if isinstance(v, (ast.List, ast.Tuple)) and v.elts and not any(isinstance(e, ast.Starred) for e in v.elts):
+                            break
+                        problem = f"`{src(c)[:70]}` spreads `{src(v)[:40]}`, which nothing guarantees to be non-empty"
+                        continue
+                    handled = False
+                    for k, s in enumerate(p.steps[:j]):
+                        if v.id in _binds(s):
+                            b = env_at(p, k + 1).get(v.id)
+                            handled = isinstance(b, (ast.List, ast.Tuple)) and bool(b.elts) and not any(isinstance(e, ast.Starred) for e in b.elts)
+                        for _jj, c2 in path_calls(p, k, k + 1) if s.kind in ("stmt", "cond") else []:
+                            if call_attr(c2) == "handle_empty_columns" and c2.args and isinstance(c2.args[0], ast.Name) and c2.args[0].id == v.id:
+                                handled = True
+                    if handled:
+                        problem = None
+                        break
+                    problem = f"`{src(c)[:70]}` is reached without `self.handle_empty_columns({v.id})` since `{v.id}` was last bound: with no column to select the statement is `SELECT FROM ...`, which no database accepts"
+                inst = f"{f.qualname}:select:path{pi}"
+                if problem:
+                    run.fail(rule, inst, problem, fi=f, node=c, details=describe(p))
+                else:
+                    run.ok(rule, inst)
+    if n_sites < 3:
+        raise AnalysisError(f"only {n_sites} SELECT constructions from a starred list were found in sql.Engine (select_items, get_join_identity_payload, get_doomed_payload expected)")
+    h = eng.methods.get("handle_empty_columns")
+    if h is None:
+        raise AnalysisError("sql.Engine.handle_empty_columns is missing")
+    lst = [q for q in h.params if q != "self"][0]
+    for pi, p in enumerate(ctx.paths(h)):
+        facts = path_facts(p, versioned=False)
+        empty = any(fct.kind == "TRUTH" and fct.args == (lst,) and not fct.polarity for fct in facts) or not any(fct.kind == "TRUTH" and fct.args == (lst,) for fct in facts)
+        if not empty:
+            run.ok(rule, f"handle_empty_columns:nonempty:path{pi}")
+            continue
+        apps = [c for _j, c in path_calls(p) if call_attr(c) in ("append", "insert", "extend") and isinstance(c.func, ast.Attribute) and src(c.func.value) == lst]
+        good = [c for c in apps if any(isinstance(x, ast.Call) and call_attr(x) == "label" for a in c.args for x in ast.walk(a))]
+        if good and p.outcome != "raise":
+            run.ok(rule, f"handle_empty_columns:empty:path{pi}")
+        else:
+            run.fail(rule, f"handle_empty_columns:empty:path{pi}", f"a path on which `{lst}` may be empty does not append a labelled placeholder column to it", fi=h, node=p.node, details=describe(p))
